@@ -454,3 +454,7 @@ func vfLoadedTopics() []string {
 	sort.Strings(out)
 	return out
 }
+
+
+func vfQuiesce()                   { vsched.Quiesce() }
+func vfAdvance(d time.Duration) int { return vsched.Advance(d) }
